@@ -86,3 +86,13 @@ for _pid, _unit in (("C13", "mini"), ("C19", "peano")):
         assumptions=_PROG_ASSUME + ["MapOUnrolled draws its variables from ast.NewVariable (random 64-bit index): modelled as fresh variables, distinctness assumed"],
         explanation="denotation theorems about the relation bodies regenerated from the Go source on every run; cell traces of the real relations in every argument mode against the translated bodies; list/arithmetic oracles",
     )
+
+PROPS["C17"] = dict(
+    model="gen/RelRegex.v (regenerated)",
+    gens=[gens.gen_rels],
+    harness=[dict(name="main", n_quick=70, n_thorough=400, shards_quick=1, shards_thorough=6, coq=False, timeout=2400)],
+    trusted=_GOMINI_TRUSTED + ["the translator harness/cmd/genrels; regular expressions are encoded by constructor (EmptySet/EmptyStr/Char/Or/Concat/Star), which is unification-equivalent to the 4-field Go struct for values built by the package's constructor functions",
+                              "the harness's direct Brzozowski matcher and language-equivalence check (bisimulation on ACI-normalised derivatives, bounded) used as oracle"],
+    assumptions=["alphabet {a,b}; ground regular expressions"],
+    explanation="denotation theorems about the regex relation bodies regenerated from the Go source; all answers of the real relations compared with a direct derivative matcher under both placeholder policies",
+)
